@@ -642,6 +642,18 @@ def big_vcf_spec(K, S, with_inds):
                 migrations=[])
 
 
+def relabel_nodes(spec, perm):
+    """The same tree sequence with node u renamed perm[u]."""
+    n = len(spec["nodes"])
+    nodes = [None] * n
+    for u, row in enumerate(spec["nodes"]):
+        nodes[perm[u]] = row
+    edges = [[e[0], e[1], perm[e[2]], perm[e[3]], e[4]] for e in spec["edges"]]
+    edges.sort(key=lambda e: (nodes[e[2]][1], e[2], e[3], e[0]))
+    muts = [[m[0], perm[m[1]]] + list(m[2:]) for m in spec["mutations"]]
+    return dict(spec, nodes=nodes, edges=edges, mutations=muts)
+
+
 def enum_big(tier, seed):
     sizes = [(4097, 16), (4200, 40), (66, 4200), (66000, 3)]
     if tier != "quick":
@@ -654,11 +666,23 @@ def enum_big(tier, seed):
                 for sm in (None, "array"):
                     yield dict(K=K, S=S, with_inds=with_inds, ploidy=ploidy, transform=tr, mask=sm,
                                iam=(None if sm is None else False))
+            # ancestors listed first and sample ids interleaved, so that sample nodes are not 0..K-1
+            yield dict(K=K, S=S, with_inds=with_inds, ploidy=ploidy, transform=None, mask=None, iam=None,
+                       relabel=True)
 
 
 def run_big(case, ctx):
     K, S = case["K"], case["S"]
     spec = big_vcf_spec(K, S, case["with_inds"])
+    if case.get("relabel"):
+        n = len(spec["nodes"])
+        A = n - K  # ancestors take ids 0..A-1; sample u gets A + (u * 7919) % K  (7919 is coprime to every K used)
+        import math
+
+        step = next(q for q in (7919, 7907, 7901, 104729) if math.gcd(q, K) == 1)
+        perm = [A + (u * step) % K for u in range(K)] + list(range(A))
+        spec = relabel_nodes(spec, perm)
+        ctx.label("relabelled")
     site_mask = None
     sample_mask = None
     if case["mask"]:
